@@ -253,7 +253,7 @@ func (tLib *typeLib) compile(from types.Type) wir.ValueType {
 			case types.Complex128:
 				newType = tLib.module.GenValueType_complex128(type_name)
 
-			case types.Uint:
+			case types.Uint, types.Uintptr:
 				newType = tLib.module.GenValueType_uint(type_name)
 
 			case types.Int, types.UntypedInt:
